@@ -1,6 +1,6 @@
 (* Driver entry points for the tree-level reference semantics (C01/C15 and friends). *)
 From Verif Require Import Base.Prelude Base.Wire Model.Tree Model.Spec Model.VM Model.Writer.
-From Verif Require Import Proofs.CompileFrag Proofs.CompileLimit.
+From Verif Require Import Proofs.CompileFrag Proofs.CompileLimit Proofs.CompileCfSafe.
 
 (* oracle rows: rune, lower, is_word, is_eword, set-membership bits *)
 Record orow := { o_lower : Z; o_word : bool; o_eword : bool; o_sets : list bool }.
@@ -99,10 +99,28 @@ Definition run_mon (args : list Z) : list Z :=
   | _ => bad_case
   end.
 
+(* 106: tree, has_capmap, capmap pairs, capsize -> the static frame-shape verifier of Proofs/CompileCfSafe.v on the
+   full program and on the quick program (when there is one): [tyck full; has quick; tyck quick] *)
+Definition run_tyck (args : list Z) : list Z :=
+  match (dlet t <- d_tree ; dlet hm <- d_bool ; dlet m <- d_list (d_pair d_z d_z) ; dlet cs <- d_z ;
+         d_ret (t, hm, m, cs)) args with
+  | Some ((t, hm, m, cs), []) =>
+      let cm := if hm then Some m else None in
+      let '(code, tbl) := write_full cm t in
+      let mkp := fun c => {| codes := c; strings := tbl; trackcount := track_count c; capsize := cs |} in
+      e_bool (tyck_auto (mkp code)) ++
+      match write_quick cm cs t with
+      | None => [0; 0]
+      | Some q => 1 :: e_bool (tyck_auto (mkp q))
+      end
+  | _ => bad_case
+  end.
+
 Definition run01 (leg : Z) (args : list Z) : list Z :=
   if leg =? 101 then run_find args
   else if leg =? 102 then run_write args
   else if leg =? 103 then run_findk args
   else if leg =? 104 then run_frag args
   else if leg =? 105 then run_mon args
+  else if leg =? 106 then run_tyck args
   else bad_case.
